@@ -172,6 +172,7 @@ Hypothesis H_owned : forall i phi k v, valid i -> In (k, v) (snd (tr i phi)) -> 
 Hypothesis H_pure : forall i phi psi,
   (forall d, In d (fst (tr i phi)) -> phi (d_id d) (d_filter d) = psi (d_id d) (d_filter d)) ->
   tr i phi = tr i psi.
+Hypothesis H_supp : forall i phi d, In d (fst (tr i phi)) -> supp_wf (d_filter d).
 Hypothesis H_nozero : forall i phi k v, valid i -> In (k, v) (snd (tr i phi)) -> k <> 0.
 
 Notation Dinv := (Dinv owner).
@@ -294,7 +295,7 @@ Proof. destruct x; auto. Qed.
 Lemma Winv_exec W x : ProofsInv.act_valid valid x -> Winv W -> Winv (exec univ tr W x).
 Proof.
   intros Hx (HI&HH&Hsub&Hnd&Hok&Hw).
-  pose proof (Inv_exec univ tr owner valid H_owned H_pure W x Hx HI) as HI'.
+  pose proof (Inv_exec univ tr owner valid H_owned H_pure H_supp W x Hx HI) as HI'.
   assert (HPv : ProofsEvents.Pvalid valid W).
   { destruct HI as (_&_&_&_&Hv&_). exact Hv. }
   pose proof (Einv_exec univ tr valid H_nozero W x (act_valid_same x Hx) (conj HPv HH)) as [_ HH'].
